@@ -643,7 +643,7 @@ inline void round(Ctx& c, long idx)
 
 inline long count(Ctx& c)
 {
-    return c.thorough() ? 40000 : 64;
+    return c.thorough() ? 40000 : 512;
 }
 inline void run(Ctx& c, long idx)
 {
